@@ -195,6 +195,79 @@ def msa_order_rules(ctx):
            "that order): entry `position` is the label found there, not the other way round (that is the inverse permutation)", ev.lineno)
 
 
+def construction_and_output_rules(ctx, idx, apps, files):
+    """(a) a constructor that can still refuse (wrong program version, invalid arguments) does so BEFORE it creates anything that only
+    clean_up() removes - there is no object yet on which clean_up() could be called; (b) the child's output is read through
+    communicate() only (which keeps what it has read: a direct read of the pipes makes the later communicate() return nothing);
+    (c) the read files of the SRA dump wrappers are exactly `<prefix>.fastq` and `<prefix>_*.fastq`"""
+    from ..lints import raising_functions
+    from ..exprnorm import summarize, field_of, same_expr
+    raising = raising_functions(ctx, files)
+
+    def own_acquires(fn):
+        return any(isinstance(c, ast.Call) and (call_name(c) or "").split(".")[-1] == "NamedTemporaryFile"
+                   and any(k.arg == "delete" and isinstance(k.value, ast.Constant) and k.value.value is False for k in c.keywords) for c in ast.walk(fn))
+    acquiring = set()
+    for cname in apps:
+        for anc in idx.mro(cname):
+            ci = idx.classes.get(anc)
+            init = ci.methods.get("__init__") if ci is not None else None
+            if init is not None and own_acquires(init):
+                acquiring.add(cname)
+    n = 0
+    for cname in apps:
+        ci = idx.classes.get(cname)
+        init = ci.methods.get("__init__") if ci is not None else None
+        if init is None:
+            continue
+
+        def acquires(st):
+            for c in ast.walk(st):
+                if isinstance(c, ast.Call):
+                    cn = call_name(c) or ""
+                    if cn.split(".")[-1] == "NamedTemporaryFile" and any(k.arg == "delete" and isinstance(k.value, ast.Constant) and k.value.value is False for k in c.keywords):
+                        return True
+                    if cn == "super().__init__" and any(b in acquiring for b in idx.mro(cname)[1:]):
+                        return True
+            return False
+
+        def refuses(st):
+            return [x for x in ast.walk(st) if isinstance(x, ast.Raise)
+                    or isinstance(x, ast.Call) and (call_name(x) or "").split(".")[-1] in raising and (call_name(x) or "") != "super().__init__"]
+        first = next((k for k, st in enumerate(init.body) if acquires(st)), None)
+        if first is None:
+            continue
+        n += 1
+        late = [x for st in init.body[first + 1:] for x in refuses(st)]
+        ctx.ob("R3.constructor-refuses-before-acquiring", ci.rel, f"{cname}.__init__", f"first temporary file at statement {first + 1}", not late,
+               (f"`{ast.unparse(late[0])[:60]}` (line {late[0].lineno}) can still make the constructor fail after temporary files were created "
+                "(delete=False): they stay on disk, no object exists whose clean_up() would remove them" if late else ""), init.lineno)
+    ctx.floor("acquiring-constructors", n, 5)
+    # (b)
+    n_pipe = 0
+    for rel in files:
+        for x in ast.walk(ctx.src(rel).tree):
+            if isinstance(x, ast.Attribute) and x.attr in ("stdout", "stderr") and isinstance(x.value, ast.Attribute) and x.value.attr == "_process":
+                n_pipe += 1
+                ctx.ob("R5.output-through-communicate", rel, "<module>", ast.unparse(x), False,
+                       "the pipes of the child are read directly: Popen.communicate() (used by join()) then returns empty output and overwrites what was read", x.lineno)
+    ctx.count("direct-pipe-reads", n_pipe)
+    probe = ast.parse("self._process.stdout.read()")
+    ctx.need(any(isinstance(x, ast.Attribute) and x.attr == "stdout" and isinstance(x.value, ast.Attribute) and x.value.attr == "_process" for x in ast.walk(probe)),
+             "positive control of R5.output-through-communicate")
+    comm = [c for rel in files for c in ast.walk(ctx.src(rel).tree) if isinstance(c, ast.Call) and (call_name(c) or "").endswith("_process.communicate")]
+    ctx.ob("R5.output-through-communicate", "application/localapp.py", "<module>", f"{len(comm)} communicate() calls, {n_pipe} direct pipe reads",
+           len(comm) >= 4 and n_pipe == 0, "", 1, nontrivial=False)
+    # (c)
+    SRA = "application/sra/app.py"
+    ev = ctx.src(SRA).func("_DumpApp.evaluate")
+    fn_ = field_of(summarize(ev), "self", "_file_names")
+    ctx.ob("R6.dump-files", SRA, "_DumpApp.evaluate", "glob(prefix + '.fastq') + glob(prefix + '_*.fastq')",
+           fn_ is not None and same_expr(fn_, "glob.glob(self._prefix + '.fastq') + glob.glob(self._prefix + '_*.fastq')"),
+           "the reads of an accession are <prefix>.fastq or <prefix>_<n>.fastq: a looser pattern (<prefix>*.fastq) also returns the files of "
+           "other accessions whose name starts with the same characters; the code computes " + (ast.unparse(fn_)[:120] if fn_ is not None else "nothing"), ev.lineno)
+
+
 def run(ctx):
     files = app_files(ctx)
     ctx.need(len(files) >= 15, "application package files")
@@ -208,6 +281,7 @@ def run(ctx):
     from ..lints import optional_numbers_tested_for_none
     optional_numbers_tested_for_none(ctx, "application/application.py", "R2.timeout-zero-honoured", 1)
     msa_order_rules(ctx)
+    construction_and_output_rules(ctx, idx, apps, files)
     ctx.count("application_classes", len(apps))
     ctx.floor("classes", len(apps), 15)
 
@@ -690,6 +764,12 @@ def _inherited_tempfile(idx, cls, attr):
 
 
 MUTANTS = [
+    Mutant("muscle-version-check-after-super", "application/muscle/app3.py", "        major_version = get_version(bin_path, \"-version\")[0]\n        if major_version != 3:\n            raise VersionError(f\"Muscle 3 is required, got version {major_version}\")\n\n        super().__init__(sequences, bin_path, matrix)\n",
+           "        super().__init__(sequences, bin_path, matrix)\n        major_version = get_version(bin_path, \"-version\")[0]\n        if major_version != 3:\n            raise VersionError(f\"Muscle 3 is required, got version {major_version}\")\n",
+           "R3.constructor-refuses-before-acquiring"),
+    Mutant("is-finished-reads-pipes", "application/localapp.py", "            self._stdout, self._stderr = self._process.communicate()\n", "            self._stdout = self._process.stdout.read()\n            self._stderr = self._process.stderr.read()\n",
+           "R5.output-through-communicate"),
+    Mutant("dump-files-loose-pattern", "application/sra/app.py", "            glob.glob(self._prefix + \"_*.fastq\")\n", "            glob.glob(self._prefix + \"*.fastq\")\n", "R6.dump-files"),
     Mutant("msa-order-inverted", "application/msaapp.py", "            self._order[i] = int(seq_index)\n", "            self._order[int(seq_index)] = i\n", "R6.msa-order-is-output-order"),
     Mutant("msa-rows-in-file-order", "application/msaapp.py", "            out_seq_str[i] = seq_dict[str(i)]\n", "            out_seq_str[i] = list(seq_dict.values())[i]\n", "R6.msa-rows-by-label"),
     Mutant("msa-labels-from-one", "application/msaapp.py", "            sequences_file[str(i)] = str(seq)\n", "            sequences_file[str(i + 1)] = str(seq)\n", "R6.msa-input-labels"),
